@@ -116,6 +116,36 @@ def reproducibility(dim, k, g):
         fail(who + "constructing another instance changed the tables of an existing one")
 
 
+def regeneration(dim, k, g):
+    """Function (n, k) is the same function however the object got there: an object that was built for another
+    number, used (evaluated inside every ball, so that whatever it memoises is filled) and then switched with
+    function.SetFunctionNumber(k) must have the tables and the values of a newly built GKLS(n, k)."""
+    who = "GKLS(%d, %d) reached through SetFunctionNumber on a used GKLS(%d, %d) object: "
+    k0 = 1 + (k * 37 + dim) % 100
+    if k0 == k:
+        k0 = 1 + k % 100
+    who = who % (dim, k, dim, k0)
+    h = bench.construct("gkls", (dim, k0))
+    Mh, fh, rhoh = tables(h)
+    dirs = np.eye(dim)
+    for i in range(10):
+        for t in (0.0, 0.3, 0.9):
+            bench.real_eval(h, np.clip(Mh[i] + dirs[i % dim] * rhoh[i] * t, -1, 1))
+    h.function.SetFunctionNumber(k)
+    M, f, rho = tables(g)
+    M2, f2, rho2 = tables(h)
+    if not (np.array_equal(M, M2) and np.array_equal(f, f2) and np.array_equal(rho, rho2)):
+        fail(who + "its minimiser tables differ from those of a newly built GKLS(%d, %d)" % (dim, k))
+    for i in range(10):
+        for t in (0.0, 0.25, 0.5, 0.99, 1.01, 1.6):
+            for sgn in (1.0, -1.0):
+                y = np.clip(M[i] + sgn * dirs[(i + 1) % dim] * rho[i] * t, -1, 1)
+                a, b = bench.real_eval(h, y), bench.real_eval(g, y)
+                if a != b:
+                    fail(who + "value %r at %r, a newly built GKLS(%d, %d) gives %r (ball %d, radius fraction %r)" %
+                         (a, y.tolist(), dim, k, b, i, t))
+
+
 unit = st.floats(0.0, 1.0, allow_nan=False)
 
 
@@ -231,10 +261,11 @@ def functions(ctx):
             g = guarded(lambda _c: bench.construct("gkls", (dim, k)), None)
             guarded(lambda _c: structure(dim, k, g), None)
             guarded(lambda _c: reproducibility(dim, k, g), None)
+            guarded(lambda _c: regeneration(dim, k, g), None)
         except Violation as v:
             ctx.violation({"dim": dim, "k": k, "point": None}, str(v))
             continue
-        ctx.count(2, ["structure+reproducibility dim=%d" % dim])
+        ctx.count(3, ["structure+reproducibility+regeneration dim=%d" % dim])
         body = make_body(dim, k, g)
         nviol = len(ctx.violations)
         hyp_run(ctx, point_cases(dim).map(lambda c, dim=dim, k=k: dict(c, dim=dim, k=k)), body, ctx.budget,
@@ -251,5 +282,6 @@ def replay(kind, case):
     g = bench.construct("gkls", (dim, k))
     structure(dim, k, g)
     reproducibility(dim, k, g)
+    regeneration(dim, k, g)
     if case.get("point"):
         make_body(dim, k, g)(case["point"])
